@@ -25,7 +25,7 @@ FACTMAP = {
     "C16": ["el_head", "el_tail", "calls", "sendcalls", "body_WithFilter", "sends", "body_Program_handleSignals", "body_Program_Send"],
     "C17": ["order_Program_exec", "order_Program_ReleaseTerminal", "order_Program_RestoreTerminal", "el_case_execMsg",
             "order_Program_restoreTerminalState", "body_Program_initCancelReader", "order_standardRenderer_stop",
-            "order_standardRenderer_start"],
+            "order_standardRenderer_start", "body_Program_readLoop", "body_Program_waitForReadLoop"],
     "C18": ["body_Program_handleSignals", "body_Program_handleResize", "body_Program_listenForResize", "body_Program_checkResize",
             "el_case_windowSizeMsg", "order_Program_ReleaseTerminal", "order_Program_RestoreTerminal", "order_Program_Run"],
     "C19": ["body_WithFPS", "calls", "body_standardRenderer_listen", "body_standardRenderer_start", "locks"],
